@@ -71,6 +71,9 @@ EXTRA = [
     # words that are also command-line options, inside a query (a literal, a column, a root, a leading minus)
     'name from . where name = help.txt or name like %version% or name != nocolor', 'name , exif_version from sub limit 2',
     '-hardlinks , name from . limit 3', '-inode , name from sub', "name from . where name = 'no-color' or name = '--help'",
+    # operators in GROUP BY / ORDER BY keys of a query without WHERE
+    'count(*) from . group by size % 2', 'size * 2 , count(*) from . group by size * 2 order by 1', 'name from . order by size + 1 , name',
+    'count(*) from sub group by size > 3', 'name from . order by size = 4 , name limit 5', 'name from sub order by size mod 3 desc , name',
     'name from su.* regexp', 'name from [s]ub maxdepth 1 regexp', 'name , size from e , su.* regexp dfs where name regexp ^a order by 1',
 ]
 
